@@ -1054,7 +1054,16 @@ func DeepFind(p *Prog, root *ssa.Function, pred func(ssa.Instruction) bool) []Fo
 	var out []Found
 	var walk func(f *ssa.Function, stack []*ssa.Call)
 	walk = func(f *ssa.Function, stack []*ssa.Call) {
+		dead := map[*ssa.BasicBlock]bool{}
+		if len(stack) > 0 {
+			for _, b := range f.Blocks {
+				dead[b] = InfeasibleUnder(b, stack)
+			}
+		}
 		Instrs(f, func(ins ssa.Instruction) {
+			if dead[ins.Block()] {
+				return // not reached from this call: it decides a nil test of a parameter the other way
+			}
 			if pred(ins) {
 				out = append(out, Found{ins, append([]*ssa.Call{}, stack...)})
 			}
@@ -1168,6 +1177,57 @@ func Origins(p *Prog, v ssa.Value, stack []*ssa.Call) []Leaf {
 	return out
 }
 
+// InfeasibleUnder: block b of a helper cannot be reached when the helper is entered through stack: on the way to b a
+// parameter is tested against nil one way while the call passes the nil constant / a value that is never nil (a
+// closure, a function, a fresh allocation) for it - `if serialize != nil { … } else { … }` in a helper that one caller
+// hands a callback and another nil.
+func InfeasibleUnder(b *ssa.BasicBlock, stack []*ssa.Call) bool {
+	if len(stack) == 0 {
+		return false
+	}
+	for _, m := range EdgeCmps(b) {
+		if !IsNilConst(m.Y) || (m.Op != token.EQL && m.Op != token.NEQ) {
+			continue
+		}
+		prm, ok := Resolve(m.X).(*ssa.Parameter)
+		if !ok || prm.Parent() != b.Parent() {
+			continue
+		}
+		v, _ := Up(prm, stack)
+		if v == ssa.Value(prm) {
+			continue
+		}
+		isNil, known := false, false
+		switch x := Resolve(Unwrap(v)).(type) {
+		case *ssa.Const:
+			if x.Value == nil {
+				isNil, known = true, true
+			}
+		case *ssa.MakeClosure, *ssa.Function, *ssa.Alloc, *ssa.MakeMap, *ssa.MakeChan, *ssa.MakeSlice:
+			known = true
+		}
+		if known && (isNil && m.Op == token.NEQ || !isNil && m.Op == token.EQL) {
+			return true
+		}
+	}
+	return false
+}
+
+func skipUnder(skip func(*ssa.BasicBlock) bool, stack []*ssa.Call) func(*ssa.BasicBlock) bool {
+	memo := map[*ssa.BasicBlock]bool{}
+	return func(b *ssa.BasicBlock) bool {
+		if skip != nil && skip(b) {
+			return true
+		}
+		r, ok := memo[b]
+		if !ok {
+			r = InfeasibleUnder(b, stack)
+			memo[b] = r
+		}
+		return r
+	}
+}
+
 // DeepCount is PathCount over f where a call of a followable helper weighs what the helper's own paths
 // weigh (which must be the same on all of them, otherwise Many). skip is applied in every frame.
 func DeepCount(p *Prog, f *ssa.Function, pred func(ssa.Instruction) bool, skip func(*ssa.BasicBlock) bool) (min, max int) {
@@ -1181,7 +1241,7 @@ func DeepCount(p *Prog, f *ssa.Function, pred func(ssa.Instruction) bool, skip f
 			if call, ok := ins.(*ssa.Call); ok {
 				if g := Callee(&call.Call); followable(p, g, stack) {
 					ns := append(append([]*ssa.Call{}, stack...), call)
-					mn, mx := PathCount(g, weight(ns), skip)
+					mn, mx := PathCount(g, weight(ns), skipUnder(skip, ns))
 					if mn != mx {
 						if mx > 0 {
 							return Many
@@ -1210,7 +1270,7 @@ func DeepMin(p *Prog, f *ssa.Function, pred func(ssa.Instruction) bool, skip fun
 			if call, ok := ins.(*ssa.Call); ok {
 				if g := Callee(&call.Call); followable(p, g, stack) {
 					ns := append(append([]*ssa.Call{}, stack...), call)
-					mn, _ := PathCount(g, weight(ns), skip)
+					mn, _ := PathCount(g, weight(ns), skipUnder(skip, ns))
 					n += mn
 				}
 			}
